@@ -377,9 +377,11 @@ impl<const MAX_NUMBER_OF_BUCKETS: usize> FixedSizePoolAllocator<MAX_NUMBER_OF_BU
             core::ptr::NonNull::<u8>::new_unchecked(new_self.next_free_index.as_mut_ptr().cast())
         };
 
+        // the index set requires capacity + 1 cells, `next_free_index_plus_one` provides the
+        // last one (same layout as in FixedSizeUniqueIndexSet)
         let allocator = BumpAllocator::new(
             data_ptr,
-            core::mem::size_of_val(new_self.next_free_index.as_ref()),
+            size_of::<Self>() - core::mem::offset_of!(Self, next_free_index),
         );
         unsafe {
             new_self
